@@ -12,6 +12,10 @@
 (*                    and the offsets of RustLayout.tla                    *)
 (*   PaddedPlace      after explicit padding up to an aligned address the  *)
 (*                    compiler adds none: the field sits at the address    *)
+(*   SlotBase/Step    n pointer-sized slots under repr(C): slot i sits at  *)
+(*                    i times the pointer width (induction skeleton, C04)  *)
+(*   ArrayStride      element size a multiple of the element alignment =>  *)
+(*                    every element of an array is aligned                 *)
 (* Checked by `tlapm ArithProofs.tla`.                                     *)
 (***************************************************************************)
 EXTENDS Arith, TLAPS
@@ -97,4 +101,44 @@ THEOREM PaddedPlace ==
 <1>2. RoundUp(cur, 1) = cur BY <1>1, FixedIffAligned
 <1>3. cur + (addr - cur) = addr OBVIOUS
 <1> QED BY <1>2, <1>3, FixedIffAligned
+
+(* vftable structs (C04): n pointer-sized slots under repr(C).  If slot i sits at i*p, the next one is placed at (i+1)*p; *)
+(* slot 0 sits at 0.  By induction on i every slot i sits at i times the pointer width, for tables of ANY length.         *)
+THEOREM SlotBase == ASSUME NEW p \in Nat \ {0} PROVE RoundUp(0, p) = 0
+<1>1. 0 % p = 0 OBVIOUS
+<1> QED BY <1>1, FixedIffAligned
+
+THEOREM SlotStep ==
+  ASSUME NEW p \in Nat \ {0}, NEW i \in Nat
+  PROVE  RoundUp(i * p + p, p) = (i + 1) * p
+<1> DEFINE x == i * p
+<1> DEFINE y == (i + 1) * p
+<1>0. x \in Nat /\ y \in Nat OBVIOUS
+<1>1. y = x + p OBVIOUS
+<1>2. (y + 0) % p = 0 BY DivUnique
+<1>3. y % p = 0 BY <1>0, <1>2
+<1> HIDE DEF x, y
+<1>4. RoundUp(y, p) = y BY <1>0, <1>3, FixedIffAligned
+<1> QED BY <1>1, <1>4 DEF x, y
+
+LEMMA MulNat == ASSUME NEW x \in Nat, NEW y \in Nat PROVE x * y \in Nat
+  OBVIOUS
+
+(* arrays: when the element size s is a multiple of the element alignment a, element j (at j*s) is aligned as well *)
+THEOREM ArrayStride ==
+  ASSUME NEW a \in Nat \ {0}, NEW s \in Nat, s % a = 0, NEW j \in Nat
+  PROVE  (j * s) % a = 0
+<1> DEFINE q == s \div a
+<1>1. s = q * a + (s % a) /\ q \in Nat BY DivMod
+<1>2. s = q * a BY <1>1
+<1> DEFINE k == j * q
+<1>3. k \in Nat
+  <2>1. q \in Nat BY <1>1
+  <2> HIDE DEF q
+  <2> QED BY <2>1, MulNat
+<1>4. j * s = k * a
+  <2>1. j * (q * a) = (j * q) * a BY <1>1
+  <2> QED BY <2>1, <1>2
+<1>5. (k * a + 0) % a = 0 BY <1>3, DivUnique
+<1> QED BY <1>4, <1>5, <1>3
 =============================================================================
